@@ -92,12 +92,13 @@ func checkC16InTree(root string, c c16Case) (skip string, err error) {
 	if e := guard(func() error { got, gerr = pattern.Glob(pat); return nil }); e != nil {
 		return "", fmt.Errorf("Glob(%q) %v", pat, e)
 	}
-	if !ok {
+	if !ok && gerr != nil {
 		return "pattern_not_modelled", nil
 	}
-	if gerr != nil {
+	if ok && gerr != nil {
 		return "", fmt.Errorf("Glob(%q): unexpected error %v, want %q", pat, gerr, want)
 	}
+	// whatever the pattern: what is returned exists, is sorted, has no duplicates
 	for _, p := range got {
 		if _, err := os.Lstat(p); err != nil {
 			return "", fmt.Errorf("Glob(%q) returned %q, which does not exist (all: %q, want %q)", pat, p, got, want)
@@ -110,6 +111,9 @@ func checkC16InTree(root string, c c16Case) (skip string, err error) {
 		if got[i] == got[i-1] {
 			return "", fmt.Errorf("Glob(%q) = %q contains %q twice", pat, got, got[i])
 		}
+	}
+	if !ok {
+		return "pattern_not_modelled", nil
 	}
 	if !(len(got) == 0 && len(want) == 0) && !reflect.DeepEqual(got, want) {
 		return "", fmt.Errorf("Glob(%q) = %q, want %q", pat, got, want)
@@ -291,6 +295,11 @@ func TestC16(t *testing.T) {
 					pat += "//"
 				case 6:
 					pat = ".*"
+				case 7:
+					if rapid.IntRange(0, 3).Draw(rt, "malformed") == 0 {
+						// malformed: a trailing backslash, an unterminated bracket
+						pat += rapid.SampledFrom([]string{`\`, "[", `/\`, "[a", `*\`}).Draw(rt, "malformed_tail")
+					}
 				}
 				// never leave the scratch tree: no leading separator
 				for strings.HasPrefix(pat, "/") || strings.HasPrefix(pat, `\/`) {
